@@ -132,9 +132,26 @@ func (vc *VC) warn(f string, a ...interface{}) {
 	vc.warnings = append(vc.warnings, fmt.Sprintf(f, a...))
 }
 
+var panicKinds = map[string]bool{"bounds": true, "nil": true, "div0": true, "makeslice": true, "typeassert": true}
+
 func (vc *VC) addObl(fr *Frame, st *State, kind, detail string, goal Term, clause *Clause, pos token.Pos) *Obligation {
 	if goal.S == "true" {
 		return nil
+	}
+	if panicKinds[kind] || kind == "within-len" {
+		// run-time checks of Go itself: an obligation only where safety is under contract; in any
+		// case execution continues past the check only if it passed (otherwise the goroutine panics)
+		if !vc.safety {
+			if panicKinds[kind] {
+				vc.q.Assert(Implies(st.reach, goal))
+			}
+			return nil
+		}
+		defer func() {
+			if panicKinds[kind] {
+				vc.q.Assert(Implies(st.reach, goal))
+			}
+		}()
 	}
 	fname := vc.eng.funcName(vc.fn)
 	base := fname + "/" + kind
@@ -157,6 +174,17 @@ func (vc *VC) addObl(fr *Frame, st *State, kind, detail string, goal Term, claus
 	}
 	if pos.IsValid() {
 		o.Pos = vc.eng.prog.Fset.Position(pos).String()
+	}
+	if vc.top != nil {
+		for _, p := range vc.fn.Params {
+			if t, ok := vc.top.vals[p]; ok {
+				if t.Sort == SSlice {
+					o.Evals = append(o.Evals, NamedTerm{"len(" + p.Name() + ")", SLen(t)})
+				} else if t.Sort == SInt || t.Sort == SBool || t.Sort.IsBV() {
+					o.Evals = append(o.Evals, NamedTerm{p.Name(), t})
+				}
+			}
+		}
 	}
 	vc.obls = append(vc.obls, o)
 	return o
